@@ -27,7 +27,7 @@ from pyvc.contracts import FnContract
 from pyvc.ops import Unsupported
 from pyvc.state import HeapObj
 from pyvc.symex import Executor
-from pyvc.values import NONE, VBool, VExt, VInt, VNoneT, VRef, VStr, VUnk, fresh_name
+from pyvc.values import NONE, VBool, VExt, VInt, VNoneT, VRef, VStr, VTuple, VUnk, fresh_name
 from pyvc.verify import Maker
 
 HTML = "sharepoint2text/parsing/extractors/html_extractor.py"
@@ -220,6 +220,15 @@ class C17Executor(Executor):
             if o is not None and o.kind == "olist":
                 return o
         return None
+
+    def seq_view(self, st, it):
+        """The attribute list of a start tag: a sequence of (name, value-or-None) pairs of unknown length (a loop over it is
+        cut like any symbolic loop: whatever the body assigns / stores into is havocked)."""
+        if isinstance(it, VExt) and it.sort == "AttrList":
+            n = z3.Int(fresh_name("nattrs"))
+            st.assume(n >= 0)
+            return n, (lambda i: VTuple([VStr(z3.String(fresh_name("attr_name"))), VUnk("attr_value")]))
+        return super().seq_view(st, it)
 
     def b_super(self, st, args, kwargs, node):
         return [(st, VExt("HTMLParserBase"))]
